@@ -39,7 +39,13 @@ RecompressFails(e) ==
      ELSE LET T0 == TableOfGraph(K, st, e.mode, g)
               surv == UNION {KmersOfNode(K, st, g[n]) : n \in valid}
               T == Prune(st, T0, surv)
-          IN GraphFails(K, st, e.mode, T, e.out) \cup (IF e.dangling = 0 THEN {} ELSE {"DANGLING"})
+              \* CleanGraph::find_bad_nodes with the predicate "shorter than 2K": exactly the nodes with no extension on one
+              \* side, at most one on the other, and satisfying the predicate
+              TipSet == {n \in 1..Len(g) :
+                           LET nl == Cardinality(SetOf(g[n].l))  nr == Cardinality(SetOf(g[n].r)) IN
+                           ((nl = 0 /\ nr <= 1) \/ (nr = 0 /\ nl <= 1)) /\ Len(g[n].s) < 2 * K}
+              tipsOK == ~e.tips \/ cens = TipSet
+          IN GraphFails(K, st, e.mode, T, e.out) \cup (IF e.dangling = 0 THEN {} ELSE {"DANGLING"}) \cup (IF tipsOK THEN {} ELSE {"TIPS"})
 
 \* ---------------------------------------------------------------- graphq (C03 C19)
 Tup3(a) == <<a[1] + 1, a[2], a[3]>>            \* logged node ids are 0-based
@@ -94,11 +100,15 @@ GraphqFails(e) ==
             ELSE /\ Len(p) >= 1 /\ IsWalk(p) /\ Overlaps(p) /\ e.maxpath.s = SpellAll(p)
                  /\ KmersSpelled(p) = KmersWalked(p)
                  /\ Cardinality({p[i][1] : i \in 1..Len(p)}) = Len(p)
+      \* E8: the beam-search best path is a walk along reported edges, correctly spelled (its Cycle state may repeat the closing node)
+      E8 == LET p == e.beam.p IN
+            IF NN = 0 THEN p = <<>>
+            ELSE Len(p) >= 1 /\ IsWalk(p) /\ Overlaps(p) /\ e.beam.s = SpellAll(p)
       \* E7: the table was pruned, so no extension is left dangling
       E7 == \A n \in 1..NN : \A d \in {"L", "R"} : Resolvable(n, d) = BasesOf(nodes[n], d)
-  IN {c \in {"E1", "E2", "E3", "E4", "E5", "E6", "E7"} :
+  IN {c \in {"E1", "E2", "E3", "E4", "E5", "E6", "E7", "E8"} :
         ~(CASE c = "E1" -> E1 [] c = "E2" -> E2 [] c = "E3" -> E3 [] c = "E4" -> E4
-            [] c = "E5" -> E5 [] c = "E6" -> E6 [] c = "E7" -> E7)}
+            [] c = "E5" -> E5 [] c = "E6" -> E6 [] c = "E7" -> E7 [] c = "E8" -> E8)}
 
 \* ---------------------------------------------------------------- prune (C03)
 PruneFails(e) ==
